@@ -283,7 +283,9 @@ def obligations(ex, it, tm, first, last, n):
             ex.samples.append({"text": tm.text.concrete(m), "tokens": [t[0] for t in toks]})
 
 
-def make_factory(H, n, first, last):
+def make_factory(H, n, first, last, alphabets=None):
+    """alphabets: optional list of n lists of code points, restricting each position (families of
+    longer texts over a layout-focused alphabet)."""
     def make():
         ex, it = H.engine(solver_timeout_ms=120000)
         ex.fuel = 20000
@@ -291,6 +293,9 @@ def make_factory(H, n, first, last):
 
         def body(ex):
             it.call_depth = 0
+            if alphabets is not None:
+                for cp, al in zip(tm.cps, alphabets):
+                    ex.add(z3.Or(*[cp == a for a in al]))
             obligations(ex, it, tm, first, last, n)
         return ex, body, None
     return make
@@ -406,6 +411,29 @@ def main():
         H.log("%s: %d paths %s, %d obligations, %d discharged, %d workers, %.1fs" % (
             name, m.stats.get("paths", 0), m.counters, m.stats.get("obligations", 0), m.stats.get("discharged", 0), m.workers, time.time() - t0))
         handle(H, m.violations, classify=classify)
+    # families of longer texts over restricted alphabets: "integer literals keep their exact value
+    # whatever their length" (digit-only texts; every length is one symbolic path whose value is a
+    # linear form in the digits), and keyword-prefix words (added after S-C09-02: a 19-digit fast path)
+    digits = list(range(48, 58))
+    lens = list(range(5, 41)) if quick else list(range(5, 81))
+    t0 = time.time()
+    tot = 0
+    for n in lens:
+        m = parallel_explore(make_factory(H, n, first, last, alphabets=[digits] * n), 1)
+        H.absorb_merged("integer literal of %d symbolic digits" % n, m)
+        tot += m.stats.get("paths", 0)
+        handle(H, m.violations, classify=classify)
+    H.log("integer literals of %d..%d symbolic digits: %d paths, %.1fs" % (lens[0], lens[-1], tot, time.time() - t0))
+    kw = [ord(c) for c in "iftyponlbeshru_2"]
+    for n in ([4, 5, 6] if quick else [4, 5, 6, 7]):
+        name = "words of %d characters over the letters of the keywords, `_` and a digit" % n
+        t0 = time.time()
+        m = parallel_explore(make_factory(H, n, first, last, alphabets=[kw] * n), H.jobs)
+        H.absorb_merged(name, m)
+        H.log("%s: %d paths %s, %d obligations, %d discharged, %d workers, %.1fs" % (
+            name, m.stats.get("paths", 0), m.counters, m.stats.get("obligations", 0), m.stats.get("discharged", 0), m.workers, time.time() - t0))
+        handle(H, m.violations, classify=classify)
+    H.bounds["families"] = "digit-only texts of %d..%d characters; words of up to %d characters over %r" % (lens[0], lens[-1], 6 if quick else 7, "".join(map(chr, kw)))
     H.bounds.update({"texts": "all texts of up to %d characters, each character any of ASCII 0-127 or one of %s" % (sizes[-1], ["U+%04X" % r for r in X.R_CODEPOINTS]),
                      "outside": "longer texts (literals longer than the bound), other code points, invalid UTF-8 (rejected before tokenize runs)"})
     H.assumptions += ["char predicates and UTF-8 widths of the representatives and the grapheme-break rule are read from / validated against the compiled std and unicode-segmentation"]
